@@ -112,6 +112,30 @@ def o_broadband(a):
     pa = broadband_pol_ang(spec, constant(a['pa']), a['emin'], a['emax'], degrees=False)
     ok = abs(pd - a['pd']) < 1e-9 and abs(pa - a['pa']) < 1e-9
     obs = dict(pd=float(pd), pa=float(pa))
+    # the average of a constant is that constant for every band, spectrum and sampling the caller asks for (numerator and denominator are the
+    # same integral): wide bands starting at low energy, steep spectra, coarse and fine grids
+    for (e0, e1) in ((0.1, 15.), (0.1, 100.), (a['emin'], a['emax'])):
+        for npts in (50, 200, 2000):
+            for idx in (a['index'], 3.):
+                sp = lambda E, idx=idx: a['norm'] * E ** (-idx)
+                v = broadband_pol_deg(sp, constant(a['pd']), e0, e1, num_points=npts)
+                w = broadband_pol_ang(sp, constant(a['pa']), e0, e1, num_points=npts, degrees=False)
+                if abs(v - a['pd']) > 1e-9 or abs(w - a['pa']) > 1e-9:
+                    ok = False
+                    obs['band'] = 'index %r over %r-%r keV with %d points: degree %r (constant %r), angle %r (constant %r)' % (idx, e0, e1, npts, float(v), a['pd'], float(w), a['pa'])
+    # Stokes parameters scaled by an intensity and normalised again, for intensities of any numeric type (counts, whole-number fluxes)
+    from ixpeobssim.core.stokes import xModelStokesParameters as MSP
+    for dt in ('float64', 'float32', 'int64', 'uint16'):
+        I = numpy.array([0, 1, 2, 5, 40, 0, 7], dtype=dt)
+        pdv = numpy.linspace(0.1, 1., len(I)) * a['pd']
+        pav = numpy.full(len(I), a['pa'])
+        Q, U = I * MSP.q(pdv, pav), I * MSP.u(pdv, pav)
+        qn, un = MSP.normalize(Q, I), MSP.normalize(U, I)
+        back = numpy.asarray(MSP.polarization_degree(qn, un), dtype=float)
+        exp = numpy.where(I > 0, pdv, 0.)
+        if numpy.abs(back - exp).max() > (1e-5 if dt == 'float32' else 1e-12):
+            ok = False
+            obs['normalize'] = 'intensities %s of type %s: degree after normalize %s, expected %s' % (I.tolist(), dt, back.tolist(), exp.tolist())
     # a constant model is that constant on every kind of grid it is evaluated on: float64, float32 and integer energies / times, scalars
     grids = [numpy.linspace(2., 8., 7), numpy.linspace(2., 8., 7).astype(numpy.float32), numpy.arange(2, 9), numpy.arange(2, 9, dtype=numpy.int32), 3, 3.5]
     for c in (a['pd'], a['pa']):
